@@ -1688,6 +1688,13 @@ def run(tier):
         for f_ in aux_fails:
             f_['hist_keys'] = [f_['key']] if f_['key'] else ['']
         fails.extend(aux_fails)
+        try:
+            ft_fails, ft_n = c19x.fault_then_retry(scratch, rng)
+        except Exception as e_:
+            ft_fails, ft_n = [{'key': '', 'step': 0, 'case': {'machine': 'W', 'ops': []}, 'msg': f'fault-then-retry family could not run: {type(e_).__name__}: {e_}'}], 0
+        for f_ in ft_fails:
+            f_['hist_keys'] = ['']
+        fails.extend(ft_fails[:6])
         conv_fails, conv_n = c19x.converter_existence(scratch)
         for f_ in conv_fails:
             f_['hist_keys'] = ['']
@@ -1715,6 +1722,7 @@ def run(tier):
     chk.coverage.update({
         'evaluations': len(cases) + conv_cases + sh['evaluations'],
         'converter_existence_cases': conv_cases,
+        'file_object_fault_positions_retried': ft_n,
         'reads_after_close_through_other_entry_points': {'count': aux_n, 'entry_points': aux_used},
         'distinct_nontrivial': len(classes),
         'rule': 'random op histories (length <= 12; read / write-chunk / flush / close / context exit with and without '
